@@ -15,6 +15,7 @@ TOKENIZER = r"""
     (?P<SPACE>\s+)
     |(?P<COMMENT>\#.*)
     |(?P<COMMENT_ML>/\*)
+    |(?P<MLSTR>\'\'\')
     |(?P<WORD>[a-zA-Z_]+)
     |(?P<NUM>[0-9]+)
     |(?P<PLUS>\+)
@@ -28,7 +29,12 @@ TOKENIZER = r"""
     |(?P<RCB>\})
     |(?P<COLON>:)
 """
-SPAN_MATCHERS = {"COMMENT_ML": r"(?P<END_COMMENT>(\*[^/]|[^*])*)\*/"}
+# two span (multi-line) token types: the skipped comment and MLSTR, a triple-quoted string that is an ordinary terminal
+SPAN_MATCHERS = {"COMMENT_ML": r"(?P<END_COMMENT>(\*[^/]|[^*])*)\*/",
+                 "MLSTR": r"(?P<END_MLSTR>('{0,2}[^'])*)'''"}
+Q3 = "'" * 3
+MLSTR_LEXEMES = [Q3 + "a" + Q3, Q3 + "x\ny" + Q3, Q3 + "\n\n z " + Q3, Q3 + " " + Q3, Q3 + "p q\n  r\n" + Q3,
+                 Q3 + "it's\n" + Q3]
 PUNCT = {"PLUS": "+", "COMMA": ",", "SEMI": ";", "LPAR": "(", "RPAR": ")", "LBR": "[", "RBR": "]", "LCB": "{",
          "RCB": "}", "COLON": ":"}
 KEYWORDS = {"if": "IF", "end": "END_KW", "do": "DO"}
@@ -39,7 +45,7 @@ NUMS = ["0", "7", "42", "007"]
 def tok_config(synonyms, keywords):
     """-> kwargs for LLParser / _Tokenizer and the map abstract token kind -> terminal name"""
     syn = {"COMMENT_ML": "COMMENT"}
-    names = {"WORD": "WORD", "NUM": "NUM"}
+    names = {"WORD": "WORD", "NUM": "NUM", "MLSTR": "MLSTR"}
     for grp, ch in PUNCT.items():
         if synonyms:
             syn[grp] = ch
@@ -60,6 +66,8 @@ def lexemes_for(kind):
         return WORDS
     if kind == "NUM":
         return NUMS
+    if kind == "MLSTR":
+        return MLSTR_LEXEMES
     if kind.startswith("KW_"):
         return [kind[3:]]
     return [PUNCT[kind]]
@@ -331,6 +339,7 @@ NAME_POOLS = [
     ["E", "Z", "Y", "X", "W", "V"],
     ["S", "Item", "Aa", "ab", "B_1", "Tail"],
     ["M", "Zz", "A", "Mm", "K", "Q"],
+    ["ARGS", "ITEMS", "X_", "S_S", "TS", "E9"],      # names ending in 'S', '_' or a digit (what helper-symbol suffixes look like)
 ]
 
 
